@@ -448,7 +448,7 @@ var pomTargets = []string{"2.0", "1", "3.0.0-jre", "10.1"}
 
 func explorePomDoc(r *ev.Run, d *pomDoc) {
 	files, chain := d.Opt.render()
-	base := caseSpec{Kind: "pom", Files: files, Main: chain[0], Chain: chain}
+	base := caseSpec{Kind: "pom", Files: files, Main: chain[0], Chain: chain, Family: d.Family}
 	docDir := newCaseDir()
 	defer os.RemoveAll(docDir)
 	in, discs := preparePom(&base, docDir)
